@@ -94,22 +94,37 @@ def r1_chain(cx):
             for c in cls:
                 cb = F.body(c)
                 lc = cb.calls(r"PackLocatorTrait>::locate$")
-                tr = cb.calls(r"Result::<std::option::Option<.*>, .*>::transpose$")
-                if len(lc) == 1 and len(tr) == 1 and ("call", lc[0][0]) in cb.origins(tr[0][1]["args"][0]) and ("call", tr[0][0]) in cb.origins(0) \
-                        and ("param", 1) in cb.origins(lc[0][1]["args"][1]) and ("param", 1) in cb.origins(lc[0][1]["args"][2]) and ("param", 2) in cb.origins(lc[0][1]["args"][0]):
-                    caps = [st for blk in gb.blocks for st in blk["s"] if st["k"] == "assign" and st["rv"]["k"] == "agg" and st["rv"].get("closure_fn") == c["id"]]
-                    co = set()
-                    for st in caps:
-                        for fo in st["rv"]["fields"]:
-                            co |= gb.origins(fo)
-                    if ("param", 2) in co and ("param", 3) in co:
-                        good.append(c)
+                if len(lc) != 1 or ("call", lc[0][0]) not in cb.origins(0):
+                    continue
+                if not (("param", 1) in cb.origins(lc[0][1]["args"][1]) and ("param", 1) in cb.origins(lc[0][1]["args"][2]) and ("param", 2) in cb.origins(lc[0][1]["args"][0])):
+                    continue
+                caps = [st for blk in gb.blocks for st in blk["s"] if st["k"] == "assign" and st["rv"]["k"] == "agg" and st["rv"].get("closure_fn") == c["id"]]
+                co = set()
+                for st in caps:
+                    for fo in st["rv"]["fields"]:
+                        co |= gb.origins(fo)
+                if not (("param", 2) in co and ("param", 3) in co):
+                    continue
+                # Result<Option<_>> -> Option<Result<_>>: inside the closure, or `.map(closure).find_map(Result::transpose)`
+                tr_in = [x for x in cb.calls(r"Result::<std::option::Option<.*>, .*>::transpose$") if ("call", lc[0][0]) in cb.origins(x[1]["args"][0])]
+                fn_arg = fm[0][1]["args"][1].get("c", {}).get("fn", "") if isinstance(fm[0][1]["args"][1], dict) else ""
+                other_tr = False
+                for c2 in cls:
+                    if c2 is c:
+                        continue
+                    c2b = F.body(c2)
+                    t2 = c2b.calls(r"Result::<std::option::Option<.*>, .*>::transpose$")
+                    if len(t2) == 1 and len(c2b.calls(r".")) == 1 and ("param", 2) in c2b.origins(t2[0][1]["args"][0]) and ("call", t2[0][0]) in c2b.origins(0):
+                        other_tr = True
+                tr_out = (bool(re.search(r"Result::<.*>::transpose$|result::Result::transpose$", fn_arg or "")) or other_tr) and bool(gb.calls(r"Iterator>::map::<"))
+                if tr_in or tr_out:
+                    good.append(c)
             outer = gb.calls(r"Option::<std::result::Result<.*>>::transpose$")
             ok = len(good) == 1 and len(outer) == 1 and ("call", fm[0][0]) in gb.origins(outer[0][1]["args"][0]) and ("call", outer[0][0]) in gb.origins(0)
     cx.ob("R1", "R1/ChainedLocator.locate/first-some-wins", ok, g, "ChainedLocator::locate iterates the vector forward and returns the first Some(reader), forwarding (uuid, path) unchanged")
     h = F.one(impl_self="ContainerPack", item="locate", trait="PackLocatorTrait", closure=False)
-    hb = F.body(h)
-    gp = hb.calls(r"ContainerPack::get_pack_reader$")
+    hb = F.deep_body(h, only=r"container_pack::ContainerPack::")     # through the pack's own accessors (get_pack_reader)
+    gp = hb.calls(r"HashMap::<uuid::Uuid, bases::reader::Reader>::get")
     ok = len(gp) == 1 and ("param", 2) in hb.origins(gp[0][1]["args"][1])
     sw = [s for s in range(hb.n) if hb.term(s)["k"] == "switch" and not hb.is_cleanup(s)]
     path_dep = [s for s in sw if ("param", 3) in hb.origins(hb.term(s)["op"])]
@@ -278,7 +293,8 @@ def r5_locators(cx):
         off_calls = [t for _, t in gb.origin_calls(pl[0][1]["args"][2]) if call_is(t, r"Seek>::stream_position$")]
         seek_end_on_skip = any(streams.seek_variant(gb, t)[0] == "End" and "Skip" in callee_str(t) for t in size_calls)
         # the inner file is positioned at the Skip origin before its position is taken
-        s0 = [i for i, t in gb.calls(r"Seek>::seek$") if streams.seek_variant(gb, t)[0] == "Start" and "Skip" in callee_str(t)]
+        s0 = [i for i, t in gb.calls(r"Seek>::seek$") if streams.seek_variant(gb, t)[0] == "Start" and "Skip" in callee_str(t)] + \
+             [i for i, t in gb.calls(r"Seek>::rewind$") if "Skip" in callee_str(t)]       # rewind() = seek(Start(0))
         sp = gb.calls(r"Seek>::stream_position$")
         pos_ok = len(sp) == 1 and bool(s0) and gb.dominates(s0[0], sp[0][0]) and bool(off_calls)
         ok = seek_end_on_skip and pos_ok and ("param", 2) in gb.origins(pl[0][1]["args"][0])
